@@ -45,6 +45,7 @@ Ret(st, e) ==
        IF p.closedAtCall
        THEN (IF e.r = "ChannelClosed" THEN [st1 EXCEPT !.rejected = @ \cup SeqSet(p.items)]
              ELSE Fail(st1, "send_after_close_not_rejected"))
+       ELSE IF e.r = "ok" /\ p.close /\ ~e.closed THEN Fail(st1, "send_from_close_did_not_close")     \* (whatever the source held, an empty one too)
        ELSE IF e.r = "ok" THEN
             \* "completed before the channel was closed": still open at return, or closed by this very send_from(close=True)
             [st1 EXCEPT !.completed = @ \cup (IF ~e.closed \/ (p.close /\ ~st.closeSeen) THEN SeqSet(p.items) ELSE {}),
